@@ -385,3 +385,42 @@ Qed.
    [ERecv SA], and goes through when the caller returns first *)
 Lemma held_mutex_blocks_reply : run cfg_held init early_trace = None.
 Proof. vm_compute. reflexivity. Qed.
+
+(* ---- 6. the sequence counter set back to 0 while a call is pending (a redial that
+        re-initialised session.seq): from a state reached under ALL hypotheses, the next call
+        gets the pending call's number, replaces it in the table and is completed by the
+        pending call's reply ---- *)
+Definition reset_run : option (state * list event * state) :=
+  match run_sane cfg_locked init wrap_first with
+  | Some st1 =>
+      match run cfg_locked (reset_count st1 SA) (wrap_rest st1) with
+      | Some st3 =>
+          match run cfg_locked st3 (wrap_reply st3) with
+          | Some st4 => Some (st1, wrap_rest st1 ++ wrap_reply st3, st4)
+          | None => None
+          end
+      | None => None
+      end
+  | None => None
+  end.
+
+Lemma counter_reset_rebinds :
+  exists st evs st', reach cfg_locked st /\ run cfg_locked (reset_count st SA) evs = Some st' /\
+    exists c stt b mt, In (c, RReply stt b mt) (e_done (ep_of st' SA)) /\ st_code stt = 0%Z /\
+      b <> fst (fst (cf_handler cfg_locked SB (c_method c) (c_args c) (c_meta c))).
+Proof.
+  destruct (run_sane cfg_locked init wrap_first) as [st1|] eqn:E1; [|vm_compute in E1; discriminate].
+  assert (R1 : reach cfg_locked st1) by (eapply run_sane_reach; [apply reach_init | exact E1]).
+  vm_compute in E1. inversion E1; subst st1. clear E1.
+  match type of R1 with reach _ ?s1 =>
+    destruct (run cfg_locked (reset_count s1 SA) (wrap_rest s1)) as [st3|] eqn:E3;
+      [|vm_compute in E3; discriminate];
+    vm_compute in E3; inversion E3; subst st3; clear E3;
+    exists s1 end.
+  match goal with |- exists evs st', _ /\ run _ (reset_count ?s1 SA) _ = _ /\ _ =>
+    match constr:(run cfg_locked (reset_count s1 SA) (wrap_rest s1)) with ?r =>
+      let r' := eval vm_compute in r in
+      match r' with Some ?s3 => exists (wrap_rest s1 ++ wrap_reply s3) end end end.
+  eexists. split; [exact R1|]. split; [vm_compute; reflexivity|].
+  do 4 eexists. split; [left; reflexivity|]. split; [reflexivity|]. vm_compute. discriminate.
+Qed.
